@@ -5,7 +5,7 @@
    (Gen/GridRcbGen.v): TOLERANCE, the least chunk count, the least chunk size,
    the starting axes. *)
 From Coupe Require Import Lib.Prelude Lib.SFloat Model.GridRcb Gen.GridRcbGen Run.RunC10
-  Proofs.GridRcbMedian Proofs.GridRcbTree Proofs.GridRcbChecker Proofs.GridRcbWitness Proofs.GridRcbFloat Proofs.GridRcbBoxes
+  Proofs.GridRcbMedian Proofs.GridRcbTree Proofs.GridRcbChecker Proofs.GridRcbWitness Proofs.GridRcbFloat Proofs.GridRcbBoxes Proofs.GridRcbComplete
   Proofs.GridRcbMain.
 Open Scope Z_scope.
 
@@ -112,6 +112,14 @@ Theorem C10_checker_sound : forall s ds ws k ids,
   check_C10 s ds ws k ids = true -> C10_spec bal_prop s ds ws k ids.
 Proof. exact check_C10_sound. Qed.
 Print Assumptions C10_checker_sound.
+
+(* ... and complete: a `false` means that the output violates the statement *)
+Theorem C10_checker_complete : forall s ds ws k ids,
+  (length ds = 2 \/ length ds = 3)%nat -> Forall (fun x => (1 <= x)%nat) ds -> length ws = glen ds ->
+  (s < length ds)%nat ->
+  C10_spec bal_prop s ds ws k ids -> check_C10 s ds ws k ids = true.
+Proof. exact check_C10_complete. Qed.
+Print Assumptions C10_checker_complete.
 
 (* ---- non-vacuity ---- *)
 Example C10_nonvacuous_run :
